@@ -39,6 +39,7 @@ TESTS = {
     "standin_cproof_verify": ("zkchannels-crypto", ["C11", "C10", "C01", "C02", "C08"], ["cproof.CommitmentProof::verify_knowledge_of_opening", "cproof.CommitmentProofBuilder::*"]),
     "standin_cproof_public_addition": ("zkchannels-crypto", ["C10", "C11"], ["cproof.CommitmentProofBuilder::generate_proof_response", "cproof.CommitmentProof::verify_knowledge_of_opening"]),
     "standin_cproof_patterns": ("zkchannels-crypto", ["C10", "C11", "C09"], ["cproof.CommitmentProof::verify_knowledge_of_opening", "cproof.CommitmentProofBuilder::*", "pedersen.Commitment::new"]),
+    "standin_sproof_patterns": ("zkchannels-crypto", ["C10", "C11", "C13"], ["sproof.SignatureProofBuilder::generate_proof_commitments", "sproof.SignatureProof::verify_knowledge_of_signature"]),
     "standin_sproof_verify": ("zkchannels-crypto", ["C11", "C10", "C02", "C13", "C12"], ["sproof.SignatureProof::verify_knowledge_of_signature", "sproof.SignatureProof::consume"]),
     "standin_range_validate": ("zkchannels-crypto", ["C13", "C19"], ["range.RangeConstraintParameters::validate"]),
     "standin_range_constraint": ("zkchannels-crypto", ["C13", "C10", "C02", "C11"], ["range.RangeConstraintBuilder::*", "range.RangeConstraint::verify_range_constraint"]),
